@@ -1,6 +1,7 @@
 """C55 Backups that skip source items are reported as incomplete (exit status 3 / 0)."""
 import json, os, subprocess, time
 import verif
+from props import uploader_common
 
 
 def start_build(ctx):
@@ -65,6 +66,7 @@ def run(ctx):
            "scripts_enumerated_by_tlc": nscripts, "records_checked_by_tlc": n, "records_rejected": len(bad),
            "counters": cnt, "exhaustive": False,
            "selection": "quick: per (item kind, fault class) of the alphabet one single-fault script with the fault below the target directory and one with the fault on a second command-line target (seeded choice of shape/position, one of the two with a 3.1 MB file; a run whose read fault arrives after the first 512 KiB of the large file - chunks of it are still being saved asynchronously then - is repeated 7 times (thorough: 3) with other contents of that file: random data with other chunk boundaries, and 8.3 MiB of constant data stored uncompressed with the minimal pack size, i.e. one maximal chunk that is a pack of its own), 3 clean and 20 pair scripts; a quarter of the scripts additionally on top of a parent snapshot, a quarter additionally with --skip-if-unchanged on top of a parent taken under the same faults; thorough: all clean scripts, seeded 1/3 of the single-fault and 1/10 of the pair scripts (different seeds cover different parts)"}
+    cov["upload_session_design_runs"] = uploader_common.design_runs(ctx)
     return verif.finish(ctx, "fault_enumeration", cov, [
         "faults are injected by a wrapping fs.FS behind the existing backupFSTestHook (in-process) and by permission bits / missing targets for an unprivileged run of the binary built from the tree",
         "a fault counts only when the file system really returned it to restic (delivered); items below a faulted directory are never reached",
